@@ -1,4 +1,5 @@
-"""Predicates of the listed findings of C03 (see known/C03.json)."""
+"""Predicates of the listed findings of C03 (see known/C03.json).  C03-F1 is fixed (3a63bdb): its predicate is
+kept for reference but no open entry names it any more."""
 from harness.common import known_predicate
 
 
